@@ -558,6 +558,7 @@ pub fn mutations(parts: &fmx::Parts, extra: &FP, rng: &mut (impl RngCore + rand_
 
 pub fn c02(opts: &Opts, out: &mut Out) {
     let mut rng = chacha(opts.seed, 2);
+    crate::scen_wire::lying_about_commitments(opts, out, "C02");
     let lim = if opts.thorough { 256 } else { 64 };
     let lat = lattice_reps(opts, lim, if opts.thorough { 2 } else { 1 }, &mut rng);
     let mut count = 0usize;
